@@ -26,7 +26,9 @@
     * shutdown after "drop everything, collect" (`C08_collect_then_shutdown`)
   CONDITIONAL, hypotheses named: `copy_vars` (`C08_copy_vars`: its levels can leave a gap, F7);
   shutdown with garbage still stored (`GcSpec0`: `collect_garbage` after the terminal's own
-  reference is released); dynamic reordering ENABLED: DDProofs.AutoDyn.
+  reference is released).
+  Dynamic reordering ENABLED: `C08_ops_dyn` (from the C09 transparency theorems), plus everything
+  of `C08_ops_unconditional` / `C08_ops_guarded` that is stated for every mode.
 -/
 import DDProofs.AutoProofs
 import DDProofs.AutoTemps
@@ -172,6 +174,54 @@ theorem C08_ops_unconditional (h : Nat) :
    fun hu h2 hne => aSucc_keepsL hu h h2 hne, fun hs ho => fEq_keeps0 hs ho,
    fun hs ho => fNe_keeps0 hs ho, aCollectGarbage_keepsAll h⟩
 
+/-- dynamic reordering possibly ENABLED (mode `off = false`: `AInv false` = the invariant with at
+least two variables; the reordering request may fire at any node creation, C09): for live
+`Function` operands and declared names these methods keep the invariant, every other handle
+and the meaning of every live `Function`.
+NOT covered with reordering enabled (named here, not proved): `apply` with the quantifier
+aliases (needs "the support names are declared", C03/C10), `let` with `Function` values,
+`declare` as a loop (use `add_var`, `C08_ops_guarded`), and the operations that are not
+protected against a reordering in the middle — `image`, `preimage`, the raw `find_or_add`
+(finding F4c). -/
+theorem C08_ops_dyn (a : AMgr) (h : Nat) :
+    (∀ hg hu hv, AKeepsAt false a h (aIte hg hu hv h)) ∧
+    (∀ op c, docConn op = some c → c.arity = 2 → c ≠ .forall_ → c ≠ .exists_ →
+      Gen.allOps.contains op = true → ∀ hu hv, AKeepsAt false a h (aApply op hu (some hv) none h)) ∧
+    (∀ op, docConn op = some .ite → Gen.allOps.contains op = true →
+      ∀ hu hv hw, AKeepsAt false a h (aApply op hu (some hv) (some hw) h)) ∧
+    (∀ name, AKeepsAt false a h (aVar name h)) ∧
+    (∀ hu (names : List String) fa, (∀ s ∈ names, a.m.tbl.vars.contains s = true) →
+      AKeepsAt false a h (aQuantify hu (names.map Key.name) fa h)) ∧
+    (∀ (d : List (String × Bool)), (∀ p ∈ d, a.m.tbl.vars.contains p.1 = true) →
+      AKeepsAt false a h (aCube d h)) ∧
+    (∀ (vals : List (String × Bool)), vals ≠ [] → (∀ p ∈ vals, a.m.tbl.vars.contains p.1 = true) →
+      ∀ hu, AKeepsAt false a h (aLet (.bools (boolKeys vals)) hu h)) ∧
+    (∀ (dvars : List (String × String)), dvars ≠ [] → (∀ p ∈ dvars, a.m.tbl.vars.contains p.2 = true) →
+      ∀ hu, AKeepsAt false a h (aLet (.names dvars) hu h)) ∧
+    (∀ op c, docConn op = some c → c.arity = 2 → c ≠ .forall_ → c ≠ .exists_ →
+      Gen.allOps.contains op = true → ∀ hs ho, AKeepsAt false a h (fApply op hs (some ho) h)) ∧
+    (∀ op hs, AKeeps false h (fApply op hs none h)) ∧
+    (∀ hs ho, AKeeps0 false (fLe hs ho)) ∧
+    (∀ hs ho, AKeeps0 false (fLt hs ho)) ∧
+    (∀ (src : AMgr) (offS : Bool) hu, AInv offS src →
+      (∀ u, (nodeIn hu src).1 = .ok u → CopyPre src.m.tbl u a.m.tbl) →
+      AKeepsAt false a h (aCopyTo src hu h)) :=
+  ⟨fun hg hu hv => aIte_keepsAtDyn a hg hu hv h,
+   fun op c hc h2 hq1 hq2 hall hu hv => aApply_binary_keepsAtDyn a op c hc h2 hq1 hq2 hall hu hv h,
+   fun op hc hall hu hv hw => aApply_ite_keepsAtDyn a op hc hall hu hv hw h,
+   fun name => aVar_keepsAtDyn a name h,
+   fun hu names fa hd => aQuantify_keepsAtDyn a hu names fa hd h,
+   fun d hd => aCube_keepsAtDyn a d hd h,
+   fun vals hne hd hu => aLet_bools_keepsAtDyn a vals hne hd hu h,
+   fun dvars hne hd hu => aLet_names_keepsAtDyn a dvars hne hd hu h,
+   fun op c hc h2 hq1 hq2 hall hs ho => fApply_binary_keepsAtDyn a op c hc h2 hq1 hq2 hall hs ho h,
+   fun op hs => fApply_unary_keeps op hs h,
+   fun hs ho => fLe_keepsDyn hs ho, fun hs ho => fLt_keepsDyn hs ho,
+   fun src _ hu hsrc hpre => aCopyTo_keepsAtDyn a src hsrc hu h hpre⟩
+
+/-- non-vacuity of the mode: the C09 example manager (reordering enabled, two variables) -/
+example : DynInv exExt exDyn := exDyn_dynInv
+
 /-- the one remaining hypothesis with reordering not enabled: `copy_vars(source, target)` adds the
 variables at the levels of the source, which can leave a gap in the target (finding F7) -/
 theorem C08_copy_vars (a : AMgr) (src : Tbl) (names : List String) (h : Nat)
@@ -216,9 +266,9 @@ theorem C08_shutdown_of_gcSpec0 (gs : GcSpec0) : C08_shutdown_statement :=
 /-! ### non-vacuity -/
 
 /-- a fresh `autoref.BDD()` satisfies the invariant (reordering is not enabled in it) -/
-theorem AInv.empty : AInv off ({} : AMgr) := by
+theorem AInv.empty : AInv true ({} : AMgr) := by
   refine ⟨⟨Inv.init, OrderOK.empty, ⟨fun k => ?_, fun k c hk => ?_, fun k hk => ?_⟩, rfl, rfl, rfl,
-    fun _ => rfl⟩, fun h u hh => ?_⟩
+    ⟨fun _ => rfl, fun h => nomatch h⟩⟩, fun h u hh => ?_⟩
   rotate_left 3
   · rw [show ({} : AMgr).handles = (∅ : TreeMap Nat Int) from rfl, TreeMap.getElem?_emptyc] at hh
     cases hh
@@ -244,7 +294,7 @@ theorem AInv.empty : AInv off ({} : AMgr) := by
 /-- a state with a live `Function` (the constant `true` as handle 0) satisfies the invariant:
 the hypotheses of `C08_drop`, `C08_live_den` are satisfiable with a non-empty registry -/
 example : AInv true (aConst true 0 {}).2 ∧ (aConst true 0 {}).2.handles[(0 : Nat)]? = some 1 := by
-  obtain ⟨a', hw, i', _, hh, _⟩ := wrap_spec (off := true) {} 0 1 AInv.empty
+  obtain ⟨a', hw, i', _, hh, _⟩ := wrap_spec {} 0 1 AInv.empty
     (by show (∅ : TreeMap Nat Int).contains 0 = false; exact TreeMap.contains_emptyc) (Or.inl rfl)
   have : aConst true 0 {} = (.ok 1, a') := by
     show AM.bind' (AM.liftM (pure 1)) (fun r => AM.bind' (wrap 0 r) (fun _ => AM.pure' r)) {} = _
@@ -261,7 +311,7 @@ example : CoreKeeps off (addIntA 1) := CoreKeeps.of_read (addIntA_read 1)
 example : CoreKeeps true (ite 2 3 4) := ite_keepsOff 2 3 4
 
 /-- the hypotheses of the shutdown theorems are met by a fresh manager -/
-example : AInv off ({} : AMgr) ∧ ({} : AMgr).handles.isEmpty = true :=
+example : AInv true ({} : AMgr) ∧ ({} : AMgr).handles.isEmpty = true :=
   ⟨AInv.empty, TreeMap.isEmpty_emptyc⟩
 
 end DD
